@@ -114,7 +114,19 @@ TdValAt(j) ==
          [doc |-> TdDoc(NObj(<<DomT, <<"P", NArr(<<Member("f", ty)>>)>>, <<"Q", NArr(<<Member("g", "uint8")>>)>> >>), NStr("P"), Dom,
                         NObj(<< <<"f", val>> >>))])
 \* hostile values in the structural positions of a typed data document
+\* layered ("diamond") reference graphs: L layers of W types, every type of a layer has an array member of every type
+\* of the next layer: W^L reference paths over only L*W types (a resolver that walks paths instead of types does not
+\* end); also with a back edge from the last layer to the first (cycle through all layers)
+DiaName(l, w) == "T" \o ToString(l) \o "x" \o ToString(w)
+Diamond(L, W, back) ==
+  TdDoc(NObj(<<DomT>> \o
+             [k \in 1..(L * W) |->
+                LET l == 1 + ((k - 1) \div W)  w == 1 + ((k - 1) % W) IN
+                <<DiaName(l, w), NArr(IF l < L THEN [v \in 1..W |-> Member("m" \o ToString(v), DiaName(l + 1, v) \o "[]")]
+                                       ELSE IF back THEN <<Member("up", DiaName(1, 1) \o "[]")>> ELSE <<Member("x", "uint8")>>)>>]),
+        NStr(DiaName(1, 1)), Dom, NObj([v \in 1..W |-> <<"m" \o ToString(v), NArr(<<>>)>>]))
 Shapes == <<
+  Diamond(8, 2, FALSE), Diamond(24, 2, FALSE), Diamond(64, 2, FALSE), Diamond(64, 2, TRUE), Diamond(12, 4, FALSE), Diamond(40, 3, TRUE),
   TdDoc(NNull, NStr("P"), Dom, NObj(<<>>)), TdDoc(NArr(<<>>), NStr("P"), Dom, NObj(<<>>)), TdDoc(NObj(<<>>), NStr("P"), Dom, NObj(<<>>)),
   TdDoc(NObj(<<DomT>>), NNull, Dom, NObj(<<>>)), TdDoc(NObj(<<DomT>>), NStr(""), Dom, NObj(<<>>)),
   TdDoc(NObj(<<DomT>>), NStr("EIP712Domain"), Dom, Dom), TdDoc(NObj(<<DomT, <<"P", NNull>> >>), NStr("P"), Dom, NObj(<<>>)),
